@@ -695,6 +695,10 @@ class RecipeGen:
                     ret = r.choice(["void", "uint64", "uint64", "string", "bool", "(uint64,uint8)", "uint8"])
             nm = (r.choice(NAMEPOOL) + str(k)) if self.f["names"] else f"f{k}"
             s = {"name": nm, "deco": deco, "ret": ret, "params": params, "body": [], "retexpr": None}
+            if not is_method and self.f["names"] and r.random() < 0.25:
+                # an explicit subroutine name: names that sanitise to the same label, very long
+                # names, names shared by two subroutines, non-identifier characters
+                s["label"] = r.choice(["a b", "a-b", "a_b", "helper", "helper", "x" * 80, "sub/1", "caf\u00e9", "f", "main", "__sub__", "0start"])
             if not is_method and self.f["shared_fns"] and r.random() < 0.3:
                 # this program decorates a plain function of a shared helper module for itself
                 fn = r.choice(["one", "inc", "tmp", "add"])
@@ -998,7 +1002,7 @@ class RecipeGen:
         # defined either up front or only just before it is registered (i.e. possibly after an
         # earlier compile of the same router)
         steps = [["defsub", k] for k in range(len(self.subs)) if k not in late]
-        steps.append(["router_new", {"name": pid, "bare": bare, "clear": clear}])
+        steps.append(["router_new", {"name": r.choice([pid, pid, "app", "Contract", "R"]), "bare": bare, "clear": clear}])
         first_compilable = None
         for k in range(nhelp, nhelp + nmeth):
             mc = {"no_op": "CALL"}
